@@ -234,33 +234,24 @@ func hasAbsoluteRoutes(root *expr.RootExpr) bool {
 	return hasAbsoluteRoutes
 }
 
+// summaryKeys lists the metadata keys that set an operation summary in order
+// of precedence.
+var summaryKeys = []string{"openapi:summary", "swagger:summary"}
+
 func summaryFromExpr(name string, e *expr.HTTPEndpointExpr) string {
-	for n, mdata := range e.Meta {
-		if (n == "openapi:summary" || n == "swagger:summary") && len(mdata) > 0 {
-			return mdata[0]
-		}
-	}
-	for n, mdata := range e.MethodExpr.Meta {
-		if (n == "openapi:summary" || n == "swagger:summary") && len(mdata) > 0 {
-			return mdata[0]
-		}
-	}
-	for n, mdata := range e.Service.ServiceExpr.Meta {
-		if (n == "openapi:summary" || n == "swagger:summary") && len(mdata) > 0 {
-			return mdata[0]
-		}
-	}
-	for n, mdata := range expr.Root.API.Meta {
-		if (n == "openapi:summary" || n == "swagger:summary") && len(mdata) > 0 {
-			return mdata[0]
+	for _, meta := range []expr.MetaExpr{e.Meta, e.MethodExpr.Meta, e.Service.ServiceExpr.Meta, expr.Root.API.Meta} {
+		for _, n := range summaryKeys {
+			if mdata := meta[n]; len(mdata) > 0 {
+				return mdata[0]
+			}
 		}
 	}
 	return name
 }
 
 func summaryFromMeta(name string, meta expr.MetaExpr) string {
-	for n, mdata := range meta {
-		if (n == "openapi:summary" || n == "swagger:summary") && len(mdata) > 0 {
+	for _, n := range summaryKeys {
+		if mdata := meta[n]; len(mdata) > 0 {
 			return mdata[0]
 		}
 	}
